@@ -79,18 +79,33 @@ SumF(s, D) == IF D = {} THEN 0 ELSE LET x == CHOOSE y \in D : TRUE IN s[x] + Sum
 MaxF(s) == CHOOSE x \in {s[h] : h \in DOMAIN s} : \A h \in DOMAIN s : s[h] <= x
 AbsI(x) == IF x < 0 THEN -x ELSE x
 
-(* unary helpers; arg is an integer argument (shift in whole hours) *)
-Apply1(op, a, arg) ==
+(* ceil and round act on the magnitude expressed in the operand's CURRENT unit, which is worth sn / sd base units *)
+CeilDiv(n, d) == -((-n) \div d)                                 \* d > 0
+RoundDiv(n, d) == (2 * n + d) \div (2 * d)                      \* d > 0, ties excluded by Tie
+Tie(n, d) == (2 * n + d) % (2 * d) = 0
+CeilIn(v, sn, sd) == CeilDiv(v * sd, sn) * sn                    \* times sd
+RoundIn(v, sn, sd) == RoundDiv(100 * v * sd, sn) * sn            \* times 100 * sd   (rounding to 2 decimals)
+Pointwise(a, f(_), ok(_)) ==
+    IF a.kind = "Q" THEN (IF ok(a.v) THEN Q(a.dim, f(a.v)) ELSE X("inexact"))
+    ELSE IF \A h \in DOMAIN a.s : ok(a.s[h]) THEN H(a.dim, [h \in DOMAIN a.s |-> f(a.s[h])], a.aware) ELSE X("inexact")
+
+(* unary helpers; arg is an integer argument (shift in whole hours); sn / sd: base units per current unit of the operand *)
+Apply1U(op, a, arg, sn, sd) ==
     CASE a.kind = "E" -> E
+      [] op = "ceil" /\ a.kind \in {"Q", "H"} ->
+           Pointwise(a, LAMBDA v : ExactDiv(CeilIn(v, sn, sd), sd), LAMBDA v : Divides(CeilIn(v, sn, sd), sd) \/ CeilIn(v, sn, sd) = 0)
+      [] op = "round" /\ a.kind \in {"Q", "H"} ->
+           Pointwise(a, LAMBDA v : ExactDiv(RoundIn(v, sn, sd), 100 * sd),
+                     LAMBDA v : ~Tie(100 * v * sd, sn) /\ (Divides(RoundIn(v, sn, sd), 100 * sd) \/ RoundIn(v, sn, sd) = 0))
       [] op = "sum" /\ a.kind = "H" -> Q(a.dim, SumF(a.s, DOMAIN a.s))
       [] op = "max" /\ a.kind = "H" -> Q(a.dim, MaxF(a.s))
       [] op = "abs" /\ a.kind = "H" -> H(a.dim, [h \in DOMAIN a.s |-> AbsI(a.s[h])], a.aware)
       [] op = "neg" /\ a.kind = "H" -> H(a.dim, [h \in DOMAIN a.s |-> -a.s[h]], a.aware)
-      [] op = "ceil" -> a                                         \* integers are their own ceiling
-      [] op = "round" -> a
       [] op = "copy" -> a
       [] op = "radd0" -> a                                        \* 0 + a, the implicit start value of sum()
       [] op = "shift" /\ a.kind = "H" -> H(a.dim, [h \in {x + arg : x \in DOMAIN a.s} |-> a.s[h - arg]], a.aware)
+
+Apply1(op, a, arg) == Apply1U(op, a, arg, 1, 1)                 \* magnitudes that are integers in their own unit
 
 (* element-wise max / min of two hourly values (or an hourly value and the empty value) *)
 Compare(cmp, l, r) ==
